@@ -354,3 +354,24 @@ Proof.
     + rewrite resolve_file_shortcut by auto. left. auto.
     + eapply resolve_complete; eauto.
 Qed.
+(* ---------- how the effective expression relates to the item *)
+Lemma is_abs_has_slash_prefix e0 : is_abs e0 = true -> has_slash (lit_prefix e0) = true.
+Proof.
+  destruct e0 as [|c e0]; [discriminate|]. simpl. intro H. apply N.eqb_eq in H. subst c. reflexivity.
+Qed.
+
+Theorem eff_expr_shape e :
+  eff_expr e = strip_scheme e \/
+  (is_abs (strip_scheme e) = false /\ eff_expr e = dotslash ++ strip_scheme e).
+Proof.
+  unfold eff_expr. rewrite plan_cases. cbv zeta. unfold with_sep. set (e0 := strip_scheme e).
+  destruct (has_slash e0) eqn:H.
+  - destruct (has_slash (lit_prefix e0)) eqn:P; [left; reflexivity|]. right. split; [|reflexivity].
+    destruct (is_abs e0) eqn:A; auto. apply is_abs_has_slash_prefix in A. congruence.
+  - right. split.
+    + destruct e0 as [|c e0]; auto. simpl. apply N.eqb_neq. eapply has_slash_false; eauto. left. auto.
+    + rewrite lit_prefix_app by apply literal_dotslash. reflexivity.
+Qed.
+
+Theorem accepts_dotslash p s : accepts (dotslash ++ p) (dotslash ++ s) = accepts p s.
+Proof. reflexivity. Qed.
